@@ -128,6 +128,7 @@ def r_expand(repo, rep):
   rd = dataflow.Reaching(g)
   param = f.params[0]
   rets = [n for n in g.nodes if n.kind == 'return' and n.ast.value is not None]
+  rets = [n for n in rets if not (isinstance(n.ast.value, ast.List) and not n.ast.value.elts)]     # `return []` for no windows
   if len(rets) != 1:
     rep.undecided('R1/dedup', f.name, 'expected one return', f.loc())
     return
@@ -233,10 +234,19 @@ def r_find(repo, rep):
   param = f.params[0]
   loops = [n for n in g.nodes if n.kind == 'for']
   rets = [n for n in g.nodes if n.kind == 'return' and n.ast.value is not None]
-  if len(loops) != 1 or len(rets) != 1 or not isinstance(rets[0].ast.value, ast.Name):
+  rv_ = rets[0].ast.value if len(rets) == 1 else None
+  # the accumulator may be a list, or a dictionary whose values are returned
+  dict_acc = False
+  if isinstance(rv_, ast.Call) and isinstance(rv_.func, ast.Name) and rv_.func.id in ('list', 'sorted', 'tuple') and len(rv_.args) == 1:
+    inner_ = rv_.args[0]
+    if isinstance(inner_, ast.Call) and isinstance(inner_.func, ast.Attribute) and inner_.func.attr == 'values' and isinstance(inner_.func.value, ast.Name):
+      rv_, dict_acc = inner_.func.value, True
+    elif isinstance(inner_, ast.Name):
+      rv_ = inner_
+  if len(loops) != 1 or len(rets) != 1 or not isinstance(rv_, ast.Name):
     rep.undecided('R4/parse', f.name, 'expected one loop and one returned list', f.loc())
     return
-  acc = rets[0].ast.value.id
+  acc = rv_.id
   loop = loops[0]
   entry = norm(loop.ast.target)
 
@@ -246,6 +256,8 @@ def r_find(repo, rep):
     for call in au.calls_in(n.ast):
       if isinstance(call.func, ast.Attribute) and norm(call.func.value) == acc and call.func.attr in ('append', 'extend'):
         return True
+    if isinstance(n.ast, ast.Assign) and len(n.ast.targets) == 1 and isinstance(n.ast.targets[0], ast.Subscript) and norm(n.ast.targets[0].value) == acc:
+      return True       # dictionary accumulator: acc[key] = window
     return isinstance(n.ast, ast.AugAssign) and norm(n.ast.target) == acc
   accs = _loop_rule(rep, f, g, loop, param, is_acc, 'R3/consume', 'entries')
   # every raise is ValueError; handlers catch ValueError only and re-raise ValueError
@@ -340,6 +352,18 @@ def r_find(repo, rep):
           if not (direct or ((both or bounded) and excl)):
             return False
         return bool(pf.dnf)
+      def one_or_two():
+        for conj in pf.dnf:
+          forms = set()
+          for e_, t_ in conj:
+            forms |= pathcond.rel_forms(e_, t_)
+          if not any(x in forms for x in ('len(%s) in (1, 2)' % base, 'len(%s) in (2, 1)' % base, 'len(%s) in [1, 2]' % base, 'len(%s) in {1, 2}' % base,
+                                          'len(%s) <= 2' % base, 'len(%s) < 3' % base, 'len(%s) == 1' % base, 'len(%s) == 2' % base)):
+            return False
+        return bool(pf.dnf)
+      if idx == [0, -1] and one_or_two():
+        rep.ok('R4/parse', 'window built from the first and the last part of a 1- or 2-part entry', loc=f.loc(tw))
+        continue
       if arity_is(1):
         good = idx in ([0, 0], [0, -1], [-1, -1], [-1, 0])
         want = 'a single day d gives the window (d, d)'
